@@ -1,7 +1,7 @@
 #!/usr/bin/env python3
 """Builds variants/index.json: which variant patches the thorough tier applies for which property and
 which rule must report the broken instance. Sources: revert patches of the fix: commits (from
-known_findings.json, status fixed) and the kept seeded changes (seeded/*/meta.json)."""
+known_findings.json, status fixed) and the kept seeded changes (seeded/*/meta.json), and hand-written positive examples (variants/hand/*.patch + .json) for rules whose expected count on the pinned tree is zero."""
 import json, os, glob
 here = os.path.dirname(os.path.dirname(os.path.abspath(__file__)))
 kf = json.load(open(os.path.join(here, "known_findings.json")))["findings"]
@@ -22,5 +22,8 @@ for m in sorted(glob.glob(os.path.join(here, "seeded/*/meta.json"))):
     for r in rules: byprop.setdefault(r.split("-")[0], []).append(r)
     for prop, rs in byprop.items():
         idx.append({"id": f"seed-{sid}", "patch": f"seeded/{sid}/patch.diff", "property": prop, "expect_rule": rs[0], "what": (d.get("summary") or "")[:140]})
+for j in sorted(glob.glob(os.path.join(here, "variants/hand/*.json"))):
+    d = json.load(open(j)); name = os.path.basename(j)[:-5]
+    idx.append({"id": f"hand-{name}", "patch": f"variants/hand/{name}.patch", "property": d["property"], "expect_rule": d["expect_rule"], "what": d["what"][:140]})
 json.dump(idx, open(os.path.join(here, "variants", "index.json"), "w"), indent=1, ensure_ascii=False)
 print(len(idx), "variants")
